@@ -120,10 +120,11 @@ var namedSamples = []func() any{
 }
 
 type env struct {
-	rt   reflect.Type
-	val  func() any // a value of the fresh struct type
-	rec  *alt.Recomposer
-	recs []recTarget
+	rt      reflect.Type
+	val     func() any // a value of the fresh struct type
+	rec     *alt.Recomposer
+	recCold *alt.Recomposer // made with its types, never used before the goroutines start
+	recs    []recTarget
 }
 
 type recTarget struct {
@@ -145,11 +146,25 @@ func (h *tokens) Key(s string)    { fmt.Fprintf(&h.sb, "%q:", s) }
 func (h *tokens) ArrayStart()     { h.sb.WriteString("[") }
 func (h *tokens) ArrayEnd()       { h.sb.WriteString("]") }
 
+// shelf reaches the struct type leaf through the element type of map fields only.
+type shelf struct {
+	Name  string
+	Items map[string]*leaf
+	Byval map[string]leaf
+}
+
+type leaf struct {
+	N   int
+	Tag string
+}
+
+var shelfData = alt.Decompose(&shelf{Name: "s", Items: map[string]*leaf{"a": {N: 1, Tag: "x"}, "b": {N: 2}}, Byval: map[string]leaf{"c": {N: 3}}}, &ojg.Options{})
+
 var opKinds = []string{
 	"oj.parse", "oj.parsestring", "oj.validate", "oj.tokenize", "sen.parse", "oj.unmarshal",
 	"oj.json", "oj.marshal", "oj.write", "sen.string", "sen.bytes", "pretty.json", "pretty.sen",
 	"struct.oj.json", "struct.oj.marshal", "struct.sen.string", "struct.pretty", "struct.decompose", "named.oj.json", "named.decompose",
-	"alt.generify", "alt.alter", "alt.dup", "alt.recompose",
+	"alt.generify", "alt.alter", "alt.dup", "alt.recompose", "alt.recompose.cold",
 	"jp.get", "jp.first", "jp.has", "jp.set", "jp.del", "jp.modify", "jp.parse",
 }
 
@@ -162,7 +177,7 @@ func shared(k string) string {
 		return "struct-plan"
 	case strings.HasPrefix(k, "jp.") && k != "jp.parse":
 		return "expression"
-	case k == "alt.recompose" || k == "oj.unmarshal":
+	case k == "alt.recompose" || k == "alt.recompose.cold" || k == "oj.unmarshal":
 		return "recomposer"
 	case k == "oj.json" || k == "oj.marshal" || k == "oj.write" || k == "sen.string" || k == "sen.bytes" || k == "pretty.json" || k == "pretty.sen":
 		return "pooled-writer"
@@ -319,6 +334,11 @@ func (e *env) call(op Op) (res string, buf []byte) {
 		t := e.recs[op.D%len(e.recs)]
 		out, err := e.rec.Recompose(canon.Copy(t.data), t.mk())
 		return fmt.Sprintf("%s %v", canon.String(out, canon.Value), err), nil
+	case "alt.recompose.cold":
+		// a recomposer that got its types when it was made and has not been used since: all it
+		// needs for them - also for the struct reached through a map only - is there already
+		out, err := e.recCold.Recompose(canon.Copy(shelfData), &shelf{})
+		return fmt.Sprintf("%s %v", canon.String(out, canon.Value), err), nil
 	case "jp.get":
 		return canon.String(sortedIfDescent(x, x.Get(tree())), canon.Typed), nil
 	case "jp.first":
@@ -393,6 +413,9 @@ func newEnv(cs Case) *env {
 		panic(err)
 	}
 	e.rec = r
+	if e.recCold, err = alt.NewRecomposer("", map[any]alt.RecomposeFunc{&shelf{}: nil}); err != nil {
+		panic(err)
+	}
 	for i, mk := range mks {
 		src := srcs[i]
 		t := recTarget{data: alt.Decompose(src, &ojg.Options{}), mk: func() any { return reflect.New(reflect.TypeOf(src).Elem()).Interface() }}
